@@ -393,6 +393,12 @@ impl Prop for C14 {
     fn id(&self) -> &'static str {
         "C14"
     }
+    fn fuzz_target(&self) -> Option<&'static str> {
+        Some("c14_bytes")
+    }
+    fn run_bytes(&self, data: &[u8], _rec: &mut Recorder) -> Result<(), Failure> {
+        crate::fuzz::c14_bytes_judge(data)
+    }
     fn isolated(&self) -> bool {
         true
     }
